@@ -188,10 +188,8 @@ func runC14(c *core.Ctx) {
 			as := assignsToVar(push, pv)
 			okSrc := len(as) == 1 && as[0].RHS != nil && isCallTo(push, as[0].RHS, bufT+".completeEventParents") != nil
 			c.Check(okSrc, "parents come from completeEventParents", "provenance", s.Pos(), "the parents handed on are the result of completeEventParents(e)", "parents do not come from completeEventParents")
-			ok, wit := push.GuardedBy(s.Pt, func(ft core.Fact) bool {
-				cm, ok := core.NormCmp(ft)
-				return ok && cm.R != nil && cm.Op == token.NEQ && varOf(push, cm.L) == pv && core.IsNil(push.Info(), cm.R)
-			})
+			// varNilFact accepts either operand order (parents != nil, nil != parents, !(nil == parents))
+			ok, wit := push.GuardedBy(s.Pt, varNilFact(push, pv, false))
 			c.Check(ok, "processing only with complete parents", "T4 GuardedBy", s.Pos(), "processCompleteEvent is reached only on the parents != nil edge", "processCompleteEvent reachable with nil parents: "+push.DescribePath(wit))
 		}
 		// completeEventParents: a nil Get result returns nil
@@ -211,10 +209,7 @@ func runC14(c *core.Ctx) {
 			nonNil := returnsWith(cep, 0, func(e ast.Expr) bool { return !core.IsNil(cep.Info(), e) })
 			okAll := len(nonNil) > 0
 			for _, rp := range nonNil {
-				if ok, _ := cep.GuardedBetween(g.Pt, rp, func(ft core.Fact) bool {
-					cm, ok := core.NormCmp(ft)
-					return ok && cm.R != nil && cm.Op == token.NEQ && varOf(cep, cm.L) == rv && core.IsNil(cep.Info(), cm.R)
-				}); !ok {
+				if ok, _ := cep.GuardedBetween(g.Pt, rp, varNilFact(cep, rv, false)); !ok {
 					okAll = false
 				}
 			}
@@ -237,10 +232,7 @@ func runC14(c *core.Ctx) {
 					}
 				}
 				if ev != nil {
-					ok2, _ := pce.GuardedBetween(chk[0].Pt, ps.Pt, func(ft core.Fact) bool {
-						cm, ok := core.NormCmp(ft)
-						return ok && cm.R != nil && cm.Op == token.EQL && varOf(pce, cm.L) == ev && core.IsNil(pce.Info(), cm.R)
-					})
+					ok2, _ := pce.GuardedBetween(chk[0].Pt, ps.Pt, varNilFact(pce, ev, true))
 					okC = okC && ok2
 				} else {
 					okC = false
@@ -328,17 +320,33 @@ func runC14(c *core.Ctx) {
 	c.Clause("C14.limit", func() {
 		pe := c.Fn(bufT + ".PushEvent")
 		spill := c.Fn(bufT + ".spillIncompletes")
-		sp := pe.CallsTo(bufT + ".spillIncompletes")
-		okArg := len(sp) > 0
-		for _, s := range sp {
-			if len(s.Call.Args) != 1 || fieldNameOf(pe, s.Call.Args[0]) != bufT+".limit" {
+		// every spill in the package is either with the configured limit or with the zero limit (Clear)
+		isSpill := func(cs *core.CallSite) bool { return cs.Name == bufT+".spillIncompletes" }
+		isLimitSpill := func(cs *core.CallSite) bool {
+			return isSpill(cs) && len(cs.Call.Args) == 1 && fieldNameOf(cs.F, cs.Call.Args[0]) == bufT+".limit"
+		}
+		okArg := len(pe.SitesMay(isSpill, 2)) > 0
+		for _, pt := range pe.SitesMay(isSpill, 2) {
+			if !core.PointSet(pe.SitesMay(isLimitSpill, 2)...)(pt) {
 				okArg = false
 			}
 		}
 		c.Check(okArg, "PushEvent spills with the configured limit", "provenance", pe.Pos(), "spillIncompletes is called with buf.limit", "spillIncompletes is not called with buf.limit")
-		for _, ps := range pe.CallsTo(bufT + ".pushEvent") {
-			ok, wit := pe.MustPassAfter(ps.Pt, core.Points(sp))
-			c.Check(ok, "spill after every push", "T3 PostDominates", ps.Pos(), "spillIncompletes(limit) post-dominates pushEvent in PushEvent", "PushEvent can return after buffering without enforcing the limits: "+pe.DescribePath(wit))
+		// The limits hold when PushEvent returns: nothing that can put an event into the buffer happens
+		// after the last spill. A growth site is a call that may (transitively) reach incompletes.Add;
+		// a spill site is a call that certainly performs spillIncompletes(buf.limit), directly or in a
+		// helper. A growth call evaluated inside the return statement has nothing after it.
+		isGrow := func(cs *core.CallSite) bool {
+			return cs.Name == "utils/wlru.Cache.Add" && fieldNameOf(cs.F, cs.Recv()) == bufT+".incompletes"
+		}
+		grow := pe.SitesMay(isGrow, 4)
+		c.ExpectAtLeast("calls of PushEvent that can put an event into the buffer", len(grow), 1)
+		spillMust := pe.SitesMust(isLimitSpill, 2)
+		for _, g := range grow {
+			ok, wit := c14FollowedBy(pe, g, spillMust)
+			c.Check(ok, "spill after every push", "T3 PostDominates", posOf(g),
+				"every path from a call that can buffer an event to a return of PushEvent passes spillIncompletes(buf.limit)",
+				"PushEvent can return after buffering an event without enforcing the limits afterwards (a spill made before the insertion does not count: the buffer then holds limit+1 events, or limit bytes plus the new event, until the next push): "+pe.DescribePath(wit))
 		}
 		lim := spill.Param(0)
 		namer := func(e ast.Expr) string {
@@ -417,6 +425,32 @@ func runC14(c *core.Ctx) {
 			c.Check(ok, name+" holds mu throughout", "T1 LockSet", f.Pos(), "mu.Lock() once, defer mu.Unlock(), all buffer operations after the lock", name+" does not hold mu over all its buffer operations")
 		}
 	})
+}
+
+// c14FollowedBy: after the effect at `from`, one of `via` happens on every path to a return of f.
+// Unlike FuncInfo.MustPassAfter it does not pass vacuously when `from` is evaluated inside a return
+// statement (`return buf.pushEvent(…)`: the CFG point of the call is the return itself and nothing
+// follows it), and it accepts a `via` that is a deferred call registered on every path before `from`
+// (deferred calls run after the return value was computed).
+func c14FollowedBy(f *core.FuncInfo, from core.Point, via []core.Point) (bool, []core.Point) {
+	var deferred, plain []core.Point
+	for _, v := range via {
+		if _, isDefer := v.Node().(*ast.DeferStmt); isDefer {
+			deferred = append(deferred, v)
+		} else {
+			plain = append(plain, v)
+		}
+	}
+	if len(deferred) > 0 {
+		if ok, _ := f.MustPassBefore(deferred, from); ok {
+			return true, nil
+		}
+	}
+	if _, isRet := from.Node().(*ast.ReturnStmt); isRet {
+		// a via call in the same return statement could only count if it were evaluated later; do not guess
+		return false, []core.Point{from}
+	}
+	return f.MustPassAfter(from, plain)
 }
 
 // isFreshEvent: e is &event{...} (or new(event)) that does not set released to true.
